@@ -1,6 +1,6 @@
 """C06 — receiver memory stays within max_receive_alloc; senders respect it."""
 from props import _hc
-from hc_oracles import bounds_oracle
+from hc_oracles import bounds_oracle, alloc_agreement_oracle
 
 PROP = "C06"
 COQ_FILE = "props/C06.v"
@@ -20,4 +20,4 @@ def streams(seed, tier):
 
 
 def oracle(name, ops, out):
-    return _hc.run_oracles({"*": [bounds_oracle]}, name, ops, out)
+    return _hc.run_oracles({"*": [bounds_oracle], "pair": [alloc_agreement_oracle]}, name, ops, out)
